@@ -426,3 +426,125 @@ Proof.
   - intro x. split; reflexivity.
   - split; assumption.
 Qed.
+
+(* ------------------------------------------------------------------ fixed-width numbers (dates) *)
+Lemma digits_n_rt : forall ds k acc rest, all_bytes is_digit_byte ds -> (length ds <= k)%nat ->
+  (length ds = k \/ tok_is TT_Digit (cur_tok rest) = false) ->
+  p_digits_n k acc (ds ++ rest) = ROk (num_val acc ds) rest.
+Proof.
+  induction ds as [|d t IH]; intros k acc rest Hd Hl Hr; cbn [app num_val].
+  - destruct k as [|k]; [reflexivity|]. cbn [p_digits_n]. destruct Hr as [Hr|Hr]; [discriminate Hr|].
+    unfold tok_is in Hr. rewrite Hr. reflexivity.
+  - destruct k as [|k]; [cbn in Hl; lia|]. cbn [p_digits_n cur_tok cur_val tl].
+    rewrite (digit_byte_ok d (Hd d (or_introl eq_refl))), N.eqb_refl. unfold digit_val.
+    apply IH; [intros b Hb; apply Hd; right; exact Hb|cbn in Hl; lia|].
+    destruct Hr as [Hr|Hr]; [left; cbn in Hr; lia|right; exact Hr].
+Qed.
+
+Lemma number_n_rt : forall k n ds rest, EncNumUpTo k n ds -> tok_is TT_Digit (cur_tok rest) = false ->
+  p_number_n k (ds ++ rest) = ROk n rest.
+Proof.
+  intros k n ds rest (Hne & Hl & Hd & Hv) Hr. destruct ds as [|d t]; [congruence|].
+  destruct k as [|k]; [cbn in Hl; lia|]. cbn [p_number_n app].
+  cbv beta iota; erewrite bind_ok; [|apply consume_rt; unfold tok_is; rewrite (digit_byte_ok d (Hd d (or_introl eq_refl))); reflexivity].
+  cbn [num_val] in Hv. unfold digit_val. rewrite <- Hv. change (0 * 10 + (d - 48)) with (d - 48).
+  apply digits_n_rt; [intros b Hb; apply Hd; right; exact Hb|cbn in Hl; lia|right; exact Hr].
+Qed.
+
+Lemma number_n_exact_rt : forall k n ds rest, EncNumExact k n ds -> p_number_n k (ds ++ rest) = ROk n rest.
+Proof.
+  intros k n ds rest (Hl & Hk & Hd & Hv). destruct ds as [|d t]; [cbn in Hl; congruence|].
+  destruct k as [|k]; [congruence|]. cbn [p_number_n app].
+  cbv beta iota; erewrite bind_ok; [|apply consume_rt; unfold tok_is; rewrite (digit_byte_ok d (Hd d (or_introl eq_refl))); reflexivity].
+  cbn [num_val] in Hv. unfold digit_val. rewrite <- Hv. change (0 * 10 + (d - 48)) with (d - 48).
+  apply digits_n_rt; [intros b Hb; apply Hd; right; exact Hb|cbn in Hl; lia|left; cbn in Hl; lia].
+Qed.
+
+(* ------------------------------------------------------------------ dates *)
+Lemma month_rt : forall m bs rest, EncMonth m bs -> p_month (bs ++ rest) = ROk m rest.
+Proof.
+  intros m bs rest ([Hlo Hhi] & H).
+  assert (L3 : length bs = 3%nat).
+  { assert (X : length (lower bs) = 3%nat).
+    { rewrite H. assert (C : m = 1 \/ m = 2 \/ m = 3 \/ m = 4 \/ m = 5 \/ m = 6 \/ m = 7 \/ m = 8 \/ m = 9 \/ m = 10 \/ m = 11 \/ m = 12) by lia.
+      repeat (destruct C as [->|C]; [reflexivity|]). subst m. reflexivity. }
+    unfold lower in X. rewrite map_length in X. exact X. }
+  destruct bs as [|a [|b [|c [|? ?]]]]; try discriminate L3.
+  assert (TA : forall x, In x [a; b; c] -> tok_of_byte x = TT_Char).
+  { intros x Hx. apply letter_ok.
+    assert (Y : In (to_lower x) (s2b (month_name m))) by (rewrite <- H; apply lower_in; exact Hx).
+    assert (C : m = 1 \/ m = 2 \/ m = 3 \/ m = 4 \/ m = 5 \/ m = 6 \/ m = 7 \/ m = 8 \/ m = 9 \/ m = 10 \/ m = 11 \/ m = 12) by lia.
+    assert (K : forall k, In (to_lower x) (s2b (month_name k)) -> (k = 1 \/ k = 2 \/ k = 3 \/ k = 4 \/ k = 5 \/ k = 6 \/ k = 7 \/ k = 8 \/ k = 9 \/ k = 10 \/ k = 11 \/ k = 12) ->
+                is_lower_alpha (to_lower x) = true).
+    { intros k Yk Ck.
+      repeat (destruct Ck as [->|Ck];
+              [match type of Yk with In _ (s2b (month_name ?j)) =>
+                 let v := eval vm_compute in (s2b (month_name j)) in change (s2b (month_name j)) with v in Yk end;
+               repeat (destruct Yk as [Yk|Yk]; [rewrite <- Yk; reflexivity|]); contradiction|]).
+      subst k.
+      match type of Yk with In _ (s2b (month_name ?j)) =>
+        let v := eval vm_compute in (s2b (month_name j)) in change (s2b (month_name j)) with v in Yk end.
+      repeat (destruct Yk as [Yk|Yk]; [rewrite <- Yk; reflexivity|]). contradiction. }
+    exact (K m Y C). }
+  unfold p_month. cbn [app].
+  cbv beta iota; erewrite bind_ok; [|apply consume_rt; unfold tok_is; rewrite (TA a); [reflexivity|cbn; tauto]].
+  cbv beta iota; erewrite bind_ok; [|apply consume_rt; unfold tok_is; rewrite (TA b); [reflexivity|cbn; tauto]].
+  cbv beta iota; erewrite bind_ok; [|apply consume_rt; unfold tok_is; rewrite (TA c); [reflexivity|cbn; tauto]].
+  cbv beta. rewrite H.
+  assert (C : m = 1 \/ m = 2 \/ m = 3 \/ m = 4 \/ m = 5 \/ m = 6 \/ m = 7 \/ m = 8 \/ m = 9 \/ m = 10 \/ m = 11 \/ m = 12) by lia.
+  repeat (destruct C as [->|C]; [reflexivity|]). subst m. reflexivity.
+Qed.
+
+Lemma day_fixed_rt : forall d bs rest, EncDayFixed d bs -> p_day_fixed (bs ++ rest) = ROk d rest.
+Proof.
+  intros d bs rest [(c & -> & Hc & ->)|H]; unfold p_day_fixed.
+  - cbn [app]. cbv beta iota; erewrite bind_ok; [|apply matchb_yes; reflexivity].
+    cbv beta iota; erewrite bind_ok; [|apply consume_rt; unfold tok_is; rewrite (digit_byte_ok c Hc); reflexivity].
+    reflexivity.
+  - cbv beta iota; erewrite bind_ok.
+    2:{ apply matchb_no. destruct H as (Hl & _ & Hd & _). destruct bs as [|x t]; [discriminate Hl|].
+        cbn [app cur_tok]. rewrite (digit_byte_ok x (Hd x (or_introl eq_refl))). reflexivity. }
+    cbv beta iota. apply number_n_exact_rt. exact H.
+Qed.
+
+Lemma zone_rt : forall sign neg zh zm ezh ezm rest,
+  ((sign = 43 /\ neg = false) \/ (sign = 45 /\ neg = true)) -> EncNumExact 2 zh ezh -> EncNumExact 2 zm ezm ->
+  p_zone (sign :: ezh ++ ezm ++ rest) = ROk (neg, zh * 3600 + zm * 60) rest.
+Proof.
+  intros sign neg zh zm ezh ezm rest Hsg Hzh Hzm. unfold p_zone. destruct Hsg as [[-> ->]|[-> ->]].
+  - cbv beta iota; erewrite bind_ok; [|apply matchb_yes; reflexivity].
+    cbv beta iota; erewrite bind_ok; [|reflexivity].
+    cbv beta iota; erewrite bind_ok; [|apply number_n_exact_rt; exact Hzh].
+    cbv beta iota; erewrite bind_ok; [|apply number_n_exact_rt; exact Hzm]. reflexivity.
+  - cbv beta iota; erewrite bind_ok; [|apply matchb_no; reflexivity].
+    cbv beta iota; erewrite bind_ok.
+    2:{ cbv beta iota; erewrite bind_ok; [|apply matchb_yes; reflexivity]. reflexivity. }
+    cbv beta iota; erewrite bind_ok; [|apply number_n_exact_rt; exact Hzh].
+    cbv beta iota; erewrite bind_ok; [|apply number_n_exact_rt; exact Hzm]. reflexivity.
+Qed.
+
+Lemma date_time_rt : forall dt bs rest, EncDateTime dt bs -> p_date_time (bs ++ rest) = ROk dt rest.
+Proof.
+  intros [[d m y] h mi s zneg zone] bs rest
+    (ed & em & ey & eh & emi & es & sign & ezh & ezm & zh & zm & -> & Hd & Hm & Hy & Hh & Hmi & Hs & Hsg & Hzh & Hzm & Hz).
+  cbn [dt_date d_day d_month d_year dt_hour dt_min dt_sec dt_zneg dt_zone] in *.
+  unfold p_date_time. cbn [app]. repeat (rewrite <- app_assoc; cbn [app]).
+  cbv beta iota; erewrite bind_ok; [|apply consume_rt; reflexivity].
+  cbv beta iota; erewrite bind_ok; [|apply day_fixed_rt; exact Hd].
+  cbv beta iota; erewrite bind_ok; [|apply consume_rt; reflexivity].
+  cbv beta iota; erewrite bind_ok; [|apply month_rt; exact Hm].
+  cbv beta iota; erewrite bind_ok; [|apply consume_rt; reflexivity].
+  cbv beta iota; erewrite bind_ok; [|apply number_n_exact_rt; exact Hy].
+  cbv beta iota; erewrite bind_ok; [|apply consume_rt; reflexivity].
+  cbv beta iota; erewrite bind_ok.
+  2:{ unfold p_time.
+      cbv beta iota; erewrite bind_ok; [|apply number_n_exact_rt; exact Hh].
+      cbv beta iota; erewrite bind_ok; [|apply consume_rt; reflexivity].
+      cbv beta iota; erewrite bind_ok; [|apply number_n_exact_rt; exact Hmi].
+      cbv beta iota; erewrite bind_ok; [|apply consume_rt; reflexivity].
+      cbv beta iota; erewrite bind_ok; [|apply number_n_exact_rt; exact Hs]. reflexivity. }
+  cbv beta iota; erewrite bind_ok; [|apply consume_rt; reflexivity].
+  cbv beta iota; erewrite bind_ok; [|apply (zone_rt sign zneg zh zm ezh ezm _ Hsg Hzh Hzm)].
+  cbv beta iota; erewrite bind_ok; [|apply consume_rt; reflexivity].
+  cbv beta iota. unfold ret. cbn [fst snd]. rewrite Hz. reflexivity.
+Qed.
